@@ -14,6 +14,9 @@ import metagen as G
 def run(rep, tier, seed):
     rng = vlib.Rng(seed)
     pr = vlib.coq_check('C17')
+    pr2 = vlib.coq_check('C17b')      # CURRENT always names a complete MANIFEST (record-level crash model, FsProofs.v)
+    pr['theorems'] = pr['theorems'] + pr2['theorems']; pr['ok'] = pr['ok'] and pr2['ok']; pr['closed_count'] = pr.get('closed_count', 0) + pr2.get('closed_count', 0)
+    pr['axioms'] = sorted(set(pr['axioms']) | set(pr2['axioms'])); pr['log'] += pr2['log']; pr['file'] += ' + coq/theories/Properties_C17b.v'
     rep.add_proof(pr)
     if not pr['ok']:
         rep.violation({'kind': 'proof-broken', 'theorems': pr['theorems'], 'log': pr['log'][-3000:],
